@@ -88,7 +88,7 @@ pub fn generate(rng: &mut Rng, _tier: &str) -> Scenario {
         let body: Vec<String> = keys.iter().enumerate().map(|(i, k)| format!("{k:?} = {i}")).collect();
         let text = format!("tags = [{}]\nordered = [ {} ]\n[m]\n{}\n", items.join(sep), items.join(" , "), body.join("\n"));
         let mut sc = Scenario::new("C14", "H", Ty::Unit);
-        sc.doc = Some(DocSpec { text, tree: None, spans: vec![], source: "collections".into(), plan: None, headers: vec![] });
+        sc.doc = Some(DocSpec { text, tree: None, spans: vec![], source: "collections".into(), plan: None, headers: vec![], header_ends: vec![] });
         return sc;
     }
     let (doc, tree) = gen_doc(rng);
@@ -130,6 +130,9 @@ impl<'a> NodeRef<'a> {
             }
             (NodeRef::Item(toml_edit::Item::Value(toml_edit::Value::Array(a))), PathSeg::I(i)) | (NodeRef::Value(toml_edit::Value::Array(a)), PathSeg::I(i)) => a.get(*i).map(NodeRef::Value),
             (NodeRef::Item(toml_edit::Item::ArrayOfTables(a)), PathSeg::I(i)) => a.get(*i).map(NodeRef::Table),
+            // the table form of a tuple variant's payload: positional keys
+            (NodeRef::Item(toml_edit::Item::Table(t)), PathSeg::I(i)) | (NodeRef::Table(t), PathSeg::I(i)) => t.get(&i.to_string()).map(NodeRef::Item),
+            (NodeRef::Item(toml_edit::Item::Value(toml_edit::Value::InlineTable(t))), PathSeg::I(i)) | (NodeRef::Value(toml_edit::Value::InlineTable(t)), PathSeg::I(i)) => t.get(&i.to_string()).map(NodeRef::Value),
             _ => None,
         }
     }
@@ -433,6 +436,17 @@ fn walk_doc(text: &str, root: &toml_edit::Item, doc: &DocSpec, out: &mut RunOut)
                         }
                         None => out.stats.inc("probe.aot_without_span"),
                     }
+                    // "array-of-tables span = first..last element"
+                    if let (Some(sp), Some(f), Some(l)) = (&asp, a.iter().next().and_then(|t| t.span()), a.iter().last().and_then(|t| t.span())) {
+                        out.stats.inc("oracle.aot_span_exact");
+                        if sp.start != f.start || sp.end != l.end {
+                            out.violate(
+                                "C14/4",
+                                "C14/array-of-tables-span-differs".into(),
+                                format!("array of tables at {} has span {sp:?}, its first element starts at {} and its last element ends at {}\n--- text ---\n{text}", fmt_path(path), f.start, l.end),
+                            );
+                        }
+                    }
                     for (i, e) in a.iter().enumerate() {
                         path.push(PathSeg::I(i));
                         if let (Some(sp), Some(es)) = (&asp, e.span()) {
@@ -456,10 +470,28 @@ fn walk_doc(text: &str, root: &toml_edit::Item, doc: &DocSpec, out: &mut RunOut)
     }
     // a table the generator wrote with its own [header] reports a span (the documented mechanism:
     // header start .. end of the last value of its body)
-    for (path, hstart) in &doc.headers {
+    for (hi, (path, hstart)) in doc.headers.iter().enumerate() {
         out.stats.inc("oracle.header_table_has_span");
         match resolve(root, path).map(|n| n.span()) {
             Some(Some(sp)) => {
+                // "table span = header start .. end of last value": exact, from the generator's own record
+                if doc.header_ends.len() == doc.headers.len() {
+                    out.stats.inc("oracle.header_table_span_exact");
+                    let want = *hstart..doc.header_ends[hi];
+                    if sp != want {
+                        out.violate(
+                            "C14/4",
+                            "C14/header-table-span-differs".into(),
+                            format!(
+                                "table at {} has span {sp:?} = {:?}; written: header at {hstart}, last key/value line of its body ends at {} (expected {want:?} = {:?})\n--- text ---\n{text}",
+                                fmt_path(path),
+                                text.get(sp.clone()),
+                                doc.header_ends[hi],
+                                text.get(want.clone())
+                            ),
+                        );
+                    }
+                }
                 if !(sp.start <= *hstart && *hstart < sp.end) {
                     out.violate(
                         "C14/4",
